@@ -126,10 +126,30 @@ def d_obsfcst(ctx, rng, ds, paths, kind):
     axis = rng.choice(["leadtime", "time", "location", "month"])
     agg = rng.choice([None, "median", "max"])
     argv = ["-m", "obsfcst", "-x", axis] + (["-agg", agg] if agg else [])
+    qs = []
+    if kind == "prob" and rng.random() < 0.7:
+        qs = sorted(rng.sample(ds["inputs"][0]["quantiles"], rng.choice([1, 2, 3])))
+        argv += ["-q", ",".join(gen.fnum(q) for q in qs)]
     fig, case = run(ctx, paths, argv, ds)
     if fig is None:
         return
     F = len(ds["inputs"])
+    for q in qs:
+        for k in range(F):
+            label = "%s %g%%" % (ds["inputs"][k]["name"], q * 100)
+            lq = fig.lines(0, label)
+            if len(lq) != 1:
+                ctx.violation("obsfcst|series-missing", "no quantile curve labelled %r (labels %s)" % (label, [l.get_label() for l in fig.lines(0)][:12]), case)
+                continue
+            gx, gy = fig.xy(lq[0])
+            slq = refmodel.slices(ds, k, [("q", q), ("obs",)], axis)
+            wantq = [refmetrics.aggregate(agg or "mean", [c[0] for c in cs]) if cs else NAN for lab, cs in slq]
+            compare_series(ctx, "obsfcst", "quantile curve %s of input %d (-x %s)" % (label, k, axis), gy, wantq, case)
+            # the curve must be drawn in the colour of its own input's forecast line
+            lf = fig.lines(0, ds["inputs"][k]["name"])
+            if lf and lq[0].get_color() != lf[0].get_color():
+                ctx.violation("obsfcst|quantile-curve-colour", "curve %r is drawn in colour %r, its input's forecast line in %r"
+                              % (label, lq[0].get_color(), lf[0].get_color()), case)
     xs = axis_x(ds, axis)
     sl0 = refmodel.slices(ds, 0, [("obs",), ("fcst",)], axis)
     want_obs = [refmetrics.aggregate(agg or "mean", [c[0] for c in cs]) if cs else NAN for lab, cs in sl0]
